@@ -7,6 +7,7 @@ package main
 import (
 	"context"
 	"fmt"
+	"google.golang.org/protobuf/types/known/structpb"
 	"math"
 	"strings"
 	"time"
@@ -459,6 +460,42 @@ func checkPair(c pcase, cs []comparer, all []mut, fail func(k, m string)) {
 			fail("REFERENCE-BUG "+d, "the reference equality disagrees with proto.Equal")
 		}
 	}
+}
+
+// checkOneof: scalar members of a oneof HAVE presence ("this member is the one that is set"): unset versus set
+// is a difference under every comparer, whatever the member's value and whatever the tolerance.
+// TestAllTypes has no float member in a oneof; structpb.Value has (number_value).
+func checkOneof(cs []comparer, fail func(k, m string)) int {
+	vals := []*structpb.Value{
+		{}, structpb.NewNumberValue(0), structpb.NewNumberValue(0.0625), structpb.NewNumberValue(0.25), structpb.NewNumberValue(1.5), structpb.NewNumberValue(1.5625),
+		structpb.NewStringValue(""), structpb.NewStringValue("x"), structpb.NewBoolValue(false), structpb.NewNullValue(),
+		structpb.NewListValue(&structpb.ListValue{Values: []*structpb.Value{structpb.NewNumberValue(0), {}}}),
+		structpb.NewListValue(&structpb.ListValue{Values: []*structpb.Value{structpb.NewNumberValue(0.0625), structpb.NewNumberValue(0)}}),
+	}
+	n := 0
+	for i, x := range vals {
+		for j, y := range vals {
+			for _, cp := range cs {
+				n++
+				var got bool
+				if p := func() (p any) {
+					defer func() { p = recover() }()
+					got = cp.msg(x, y)
+					return nil
+				}(); p != nil {
+					fail(fmt.Sprintf("panic %s oneof #%d #%d", cp.name, i, j), fmt.Sprint(p))
+					continue
+				}
+				if want := refEqual(x, y, cp.t); got != want {
+					fail(fmt.Sprintf("verdict %s oneof x=%v y=%v", cp.name, x, y), fmt.Sprintf("comparer says %v, the reference says %v (proto.Equal=%v)", got, want, proto.Equal(x, y)))
+				}
+			}
+			if refEqual(x, y, tol{}) != proto.Equal(x, y) {
+				fail(fmt.Sprintf("REFERENCE-BUG oneof x=%v y=%v", x, y), "the reference equality disagrees with proto.Equal")
+			}
+		}
+	}
+	return n
 }
 
 func describeOne(base int, ms []int, all []mut) string {
@@ -915,6 +952,7 @@ func main() {
 			return
 		}
 		n := checkLogic(func(k, m string) { s.Fail(k, m, map[string]any{"logic": true}) })
+		n += checkOneof(comparers(), func(k, m string) { s.Fail(k, m, map[string]any{"logic": true}) })
 		s.Eval(n)
 		s.Trans(n)
 		s.State("logic")
